@@ -75,12 +75,12 @@ static uint32_t sym_twoDBC_rank_of(parsec_data_collection_t * desc, ...)
     n = va_arg(ap, unsigned int);
     va_end(ap);
 
+    assert( m < dc->super.mt );
+    assert( n < dc->super.nt );
+
     /* Offset by (i,j) to translate (m,n) in the global matrix */
     m += dc->super.i / dc->super.mb;
     n += dc->super.j / dc->super.nb;
-
-    assert( m < dc->super.mt );
-    assert( n < dc->super.nt );
 
     assert( (dc->uplo == PARSEC_MATRIX_LOWER && m>=n) ||
             (dc->uplo == PARSEC_MATRIX_UPPER && n>=m) );
@@ -136,12 +136,12 @@ static parsec_data_t* sym_twoDBC_data_of(parsec_data_collection_t *desc, ...)
     n = (int)va_arg(ap, unsigned int);
     va_end(ap);
 
+    assert( m < dc->super.mt );
+    assert( n < dc->super.nt );
+
     /* Offset by (i,j) to translate (m,n) in the global matrix */
     m += dc->super.i / dc->super.mb;
     n += dc->super.j / dc->super.nb;
-
-    assert( m < dc->super.mt );
-    assert( n < dc->super.nt );
 
 #if defined(DISTRIBUTED)
     assert(desc->myrank == desc->rank_of(desc, m, n));
@@ -192,12 +192,12 @@ static int32_t sym_twoDBC_vpid_of(parsec_data_collection_t *desc, ...)
     n = (int)va_arg(ap, unsigned int);
     va_end(ap);
 
+    assert( m < dc->super.mt );
+    assert( n < dc->super.nt );
+
     /* Offset by (i,j) to translate (m,n) in the global matrix */
     m += dc->super.i / dc->super.mb;
     n += dc->super.j / dc->super.nb;
-
-    assert( m < dc->super.mt );
-    assert( n < dc->super.nt );
 
 #if defined(DISTRIBUTED)
     assert(desc->myrank == desc->rank_of(desc, m, n));
